@@ -62,7 +62,7 @@ def safe_name(s):
 
 
 def run_property(prop_id, tier='quick', seed=0, repo=None, config='default', quiet=False, write_evidence=True,
-                 force=False):
+                 force=False, silent=False):
     """Returns (exit_code, ctx).  Prints VIOLATION / KNOWN-FINDING lines."""
     t0 = time.time()
     repo = repo or os.environ.get('VERIF_REPO', '/repo')
@@ -72,7 +72,8 @@ def run_property(prop_id, tier='quick', seed=0, repo=None, config='default', qui
         ctx = Ctx(prop_id, prog, tier, seed)
         mod.run(ctx)
     except FailClosed as e:
-        print(f'FAIL-CLOSED property={prop_id}: {e}', flush=True)
+        if not silent:
+            print(f'FAIL-CLOSED property={prop_id}: {e}', flush=True)
         return 2, None
     except Exception:
         traceback.print_exc()
@@ -96,8 +97,11 @@ def run_property(prop_id, tier='quick', seed=0, repo=None, config='default', qui
         if (o['rule'], o['key']) in seen_known:
             continue
         seen_known.add((o['rule'], o['key']))
-        print(f'KNOWN-FINDING: property={prop_id} {k["what_fails"]} [{o["rule"]} {o["key"]} at {o["site"]}]', flush=True)
+        if not silent:
+            print(f'KNOWN-FINDING: property={prop_id} {k["what_fails"]} [{o["rule"]} {o["key"]} at {o["site"]}]', flush=True)
     for o in viols:
+        if silent:
+            continue
         rp = os.path.join(VERIF, 'reports', f'{prop_id}-{safe_name(o["rule"])}-{safe_name(o["key"])}.json')
         with open(rp, 'w') as f:
             json.dump(dict(property=prop_id, rule=o['rule'], rule_text=ctx.rules[o['rule']], key=o['key'],
